@@ -7,7 +7,9 @@ LEVEL = dict(
     level="other",
     rule_text="termination witnesses of PageTreeIter::next (counter / counter-or-pop), panic inventory over next/size_hint/kids/get_pages, "
               "`Some(id)` is returned only under a match of the node type against b\"Page\", numbering starts at 1, and the traversal "
-              "skeleton that depth-first left-to-right order needs: split_first, advance-before-push, push-before-descend, LIFO pop",
+              "skeleton that depth-first left-to-right order needs: split_first, advance-before-push, push-before-descend, LIFO pop; "
+              "accessor contracts: as_dict / as_reference / as_name / as_array succeed for exactly their variant (what counts as a "
+              "page-tree node goes through them); the work budget iter_limit is initialised from objects.len()",
     explanation="Decides: enumeration terminates on every graph, yields only objects whose Type is Page, numbers from 1, and the code "
                 "has the push/advance/descend/pop ordering without which depth-first left-to-right order is impossible. Does not "
                 "decide: that the yielded sequence equals the DFS order for a given tree (an ordering of run-time values).",
